@@ -435,6 +435,8 @@ def canonical_case(rng):
     case['dup'] = False
     hashes = ['SHA1', 'SHA512']
     results = []
+    wm = rng.choice([None, 0, 150, 10 ** 6])
+    wfmt = rng.choice(['gz', 'xz']) if wm is not None else None
     for variant in range(3):
         with C.Scratch() as root:
             HV.build(root, case)
@@ -447,7 +449,7 @@ def canonical_case(rng):
                 C.write_manifest(p, ents)
             with open(os.path.join(root, 'extra'), 'wb') as fh:
                 fh.write(b'x')
-            st = run_update(root, hashes, True, force=True, shuffle=random.Random(variant * 31 + 1))
+            st = run_update(root, hashes, True, force=True, shuffle=random.Random(variant * 31 + 1), watermark=wm, fmt=wfmt)
             results.append((st, {k: v[0] for k, v in manifest_files(root).items()}))
     if any(r[0] != 0 for r in results):
         out.append({'what': 'C12/C18 sorted update failed: %r' % ([r[0] for r in results],), 'key': 'canonical-status', 'props': ['C18']})
@@ -470,6 +472,9 @@ def watermark_case(rng):
     case['dup'] = False
     hashes = ['SHA1']
     fmt = rng.choice(['gz', 'bz2', 'lzma', 'xz'])
+    if rng.random() < 0.5:
+        # make sure every existing format meets every target format in both directions
+        case['fmt'] = {d: rng.choice(C.COMPR[1:]) for d in case['mdirs']}
     with C.Scratch() as root:
         HV.build(root, case)
         st = run_update(root, hashes, False, force=True)
@@ -490,6 +495,9 @@ def watermark_case(rng):
             return out
         after = manifest_files(root)
         desc['after'] = sorted(after)
+        odd = [r for r in after if os.path.basename(r) not in ['Manifest' + x for x in C.COMPR]]
+        if odd:
+            out.append(dict(desc, what='C13 Manifest files with malformed names after re-compression: %s' % odd, key='wm-name', props=['C13']))
         logical = {}
         for rel in after:
             base = rel
@@ -555,7 +563,7 @@ def main():
         evals += k
         distinct.update('fault%d' % j for j in range(k))
     if prop in ('C12',):
-        for i in range(20 if tier == 'quick' else 300):
+        for i in range(200 if tier == 'quick' else 2000):
             viol.extend(canonical_case(rng))
             evals += 3
             distinct.add('canon%d' % i)
